@@ -8,7 +8,9 @@ N_SEARCH = {"quick": 1, "thorough": 2}
 SHARD = 250
 RULE = ("line level: the sample lines of data_test.go and boundary shapes, then seeded lines of all 17 record types "
         "(optional fields present/absent, trailing fields cut, both separators, octal/hex escapes, wildcard owners, "
-        "locations, IPv4/IPv6/v4-mapped addresses, boundary and junk numbers) plus a malformed stream, each run through "
+        "locations, IPv4/IPv6/v4-mapped addresses, boundary and junk numbers; B/H with parameter lists over alpn, port, ipv4hint, "
+        "ipv6hint (also v4-mapped: F8), echconfig, no-default-alpn, mandatory in random order, quoted and unquoted, trailing ';') "
+        "plus a malformed stream (incl. rejected parameter lists), each run through "
         "DecodeLn -> MarshalMap/MarshalText three times under both key layouts; file level: files with % and Z lines "
         "preprocessed by Codec.Preprocess, original and preprocessed text compiled by rdb.Compile and dumped; "
         "non-trivial = distinct line whose text form differs from the line, or file with at least one % or Z line")
